@@ -234,6 +234,13 @@ class Path:
     self.events.append(Event(kind, what, data))
 
 
+def safe_model(solver):
+  try:
+    return solver.model()
+  except z3.Z3Exception:
+    return None
+
+
 class Explorer:
   """Enumerates all paths of `body(path)` and collects obligation results."""
 
@@ -250,6 +257,7 @@ class Explorer:
     self.unsupported = []
     self.solver_s = 0.0
     self.truncated = False
+    self.model_hook = None
 
   def explore(self, body):
     prefix = []
@@ -289,7 +297,7 @@ class Explorer:
       r = path.solver.check()
       status = 'proved' if r == z3.unsat else ('failed' if r == z3.sat
                                                else 'unknown')
-      model = path.solver.model() if r == z3.sat else None
+      model = safe_model(path.solver) if r == z3.sat else None
       self._record(path, name, status, model, info, time.time() - t0, 'z3')
       if status != 'proved':
         raise PathEnd()
@@ -304,7 +312,7 @@ class Explorer:
     s.set('timeout', self.goal_timeout_ms)
     s.add(z3.Not(goal))
     r = s.check()
-    model = s.model() if r == z3.sat else None
+    model = safe_model(s) if r == z3.sat else None
     backend = 'z3'
     if r == z3.unknown:
       from . import solve
@@ -328,6 +336,8 @@ class Explorer:
       rec['model'] = {k: str(model.eval(v, model_completion=True))
                       for k, v in path.symbols.items()}
       rec['trail'] = [c for c, _, _ in path.trail]
+      if self.model_hook is not None:
+        rec['pymodel'] = self.model_hook(path, model)
     self.results.append(rec)
 
 
@@ -849,6 +859,12 @@ class Interp:
       items = it.ghost.get('items')
       if items is not None:
         return self.iterate(items, frame)
+    if isinstance(it, SAny):
+      # opaque iterable: abstracted by 0, 1 or 2 opaque items (recorded as an
+      # assumption; only used by trace/dominance obligations)
+      k = self.path.decide(3, 'opaque-iter')
+      self.path.event('assumption', 'opaque-iteration-unrolled<=2')
+      return [SAny(f'{it.tag}[{i}]', label=it.label) for i in range(k)]
     raise Unsupported(f'iteration over {it!r}')
 
   def for_symbolic(self, s, it, frame):
